@@ -40,7 +40,8 @@ RULE = (
     "groups, at least one simulated pool with >=2 tasks ran and its schedule was not FIFO. Distinct: blake2b of (dataset, ops, layout, strategy)."
 )
 ASSUMPTIONS = [
-    "tasks are atomic; prange schedule of numba-parallel loops is not owned (thread count only)",
+    "task bodies are atomic in the task-atomic pool model and pre-empted only at Python line events of groupby_lib frames in the pre-emptive model (one fault-free run in three); compiled kernels and pandas / NumPy calls are never split; prange schedule of numba-parallel loops is not owned (thread count only)",
+    "statement-level faults are line-granular: raised before an admissible Python line of the library (DESIGN 9.4), never inside a kernel",
     "comparison ignores index dtype and integer width; sums/means/variances of arbitrary floats are compared within 4*n*u*sum|x| (resp. the sum-of-squares bound), everything else exactly",
     "explicit refusals (NotImplementedError) are not generated / not compared",
     "the baseline strategy is the oracle: a defect that is identical under every strategy is not a C03 violation and is not reported",
